@@ -8,10 +8,12 @@ Proved for **every history** (any list of `request` / `dispose` / `closePool` op
 created with `maxsize = n > 0`, every per-attempt script, every configuration, every retry budget):
 the counting invariant `Inv` holds after the history (`C01_inv_reachable`) — the scripts include failures
 OUTSIDE the I/O steps of an attempt: before the checkout (a file-like body that cannot be rewound at a
-retry / redirect hop, a per-request timeout that `Timeout` rejects) and between two attempts (the wait
+retry / redirect hop, a per-request timeout that `Timeout` rejects), in the checkout itself (a negative
+`pool_timeout`, which `queue.get` rejects on a `block=True` pool: `_get_conn` raises before it has taken
+anything) and between two attempts (the wait
 raises: unparsable `Retry-After`, interrupted `time.sleep`); every exception a
 `urlopen` call raises is a urllib3 exception or an interrupt — or the `ValueError` for the caller's own
-invalid `timeout` argument (`C01_errors_are_urllib3`, full statement); `maxsize` / `block` are never written (`C01_config_const`); a response that holds no
+invalid `timeout` / `pool_timeout` argument (`C01_errors_are_urllib3`, full statement); `maxsize` / `block` are never written (`C01_config_const`); a response that holds no
 connection never holds one later (`C01_unheld_stays`), `release_conn()` makes it so
 (`C01_release_unholds`).  Consequences: with no response holding a connection the open pool offers
 exactly `n` slots (`C01_quiescent_slots_partial`), every connected connection is idle in the queue
@@ -91,20 +93,22 @@ attempt, from the retry machinery, from the wait between two attempts, from `_pu
 redirect / retry response — is a urllib3 exception (`HTTPError`) or an interrupt (a `BaseException` that
 is not an `Exception`; the fault scripts inject nothing else of that kind).  The one exception that is
 neither is not a failure of the request: the `ValueError` raised for a per-request `timeout` argument
-that `Timeout` rejects (`rc.badTimeout`) — the caller's own argument error, raised before anything is
-taken from the pool (`C01_preflight_failure_takes_nothing`).  The lifting lemmas are
+that `Timeout` rejects (`rc.badTimeout`) or for a negative `pool_timeout` (`rc.badPoolTimeout`, rejected by
+`queue.get` on a `block=True` pool) — the caller's own argument error, raised before anything is
+taken from the pool (`C01_preflight_failure_takes_nothing`, `C01_checkout_failure_takes_nothing`).  The lifting lemmas are
 `U3.Pool.makeRequest_inv` (classes leaving `_make_request`) + `U3.Pool.request_good` (control flow of
 `urlopen`, by induction over the attempt script). -/
 theorem C01_errors_are_urllib3 (n : Nat) (block proxy : Bool) (hn : 0 < n) (ops : List Op) (rid : Nat) (rc : ReqCfg)
     (retries : Retry) (script : List Attempt) (e : Exc)
     (h : (step (run (init n block proxy) ops) (.request rid rc retries script)).2 = .result (.raised e)) :
-    isUrllib3 e.cls = true ∨ isInterrupt e.cls = true ∨ (rc.badTimeout = true ∧ e.cls = Gen.cValueError) := by
+    isUrllib3 e.cls = true ∨ isInterrupt e.cls = true ∨
+      ((rc.badTimeout = true ∨ rc.badPoolTimeout = true) ∧ e.cls = Gen.cValueError) := by
   have hi := run_inv ops _ (init_inv n block proxy hn)
   have g := (request_good rid 0 script _ rc retries hi (Nat.zero_le _)).2.1 e (by
     have : (step (run (init n block proxy) ops) (.request rid rc retries script)).2
         = .result (request (run (init n block proxy) ops) rid rc retries script).2 := rfl
     rw [this] at h; injection h)
-  have : ((isUrllib3 e.cls || isInterrupt e.cls) || (rc.badTimeout && e.cls == Gen.cValueError)) = true := g
+  have : ((isUrllib3 e.cls || isInterrupt e.cls) || ((rc.badTimeout || rc.badPoolTimeout) && e.cls == Gen.cValueError)) = true := g
   simp only [Bool.or_eq_true, Bool.and_eq_true, beq_iff_eq] at this
   rcases this with (h1 | h2) | h3
   · exact Or.inl h1
@@ -115,17 +119,19 @@ example : (match (step (run (init 1 true) []) (.request 0 {} .off [{ connect := 
     | .result (.raised e) => e.cls == Gen.cU3NewConnectionError
     | _ => false) = true := by decide
 
-/-- … in particular, with a valid `timeout` argument every failure is a urllib3 exception or an interrupt -/
+/-- … in particular, with valid `timeout` and `pool_timeout` arguments every failure is a urllib3 exception or an
+interrupt -/
 theorem C01_errors_are_urllib3_valid_timeout (n : Nat) (block proxy : Bool) (hn : 0 < n) (ops : List Op) (rid : Nat)
     (rc : ReqCfg) (retries : Retry) (script : List Attempt) (e : Exc) (hb : rc.badTimeout = false)
+    (hp : rc.badPoolTimeout = false)
     (h : (step (run (init n block proxy) ops) (.request rid rc retries script)).2 = .result (.raised e)) :
     isUrllib3 e.cls = true ∨ isInterrupt e.cls = true := by
   rcases C01_errors_are_urllib3 n block proxy hn ops rid rc retries script e h with h1 | h2 | ⟨h3, _⟩
   · exact Or.inl h1
   · exact Or.inr h2
-  · rw [hb] at h3; cases h3
+  · rw [hb, hp] at h3; rcases h3 with h3 | h3 <;> cases h3
 
-example : ({} : ReqCfg).badTimeout = false ∧
+example : ({} : ReqCfg).badTimeout = false ∧ ({} : ReqCfg).badPoolTimeout = false ∧
     (match (step (run (init 1 true) []) (.request 0 {} (.count 1)
         [{ head := some { status := 503, close := false, cl := some 0, location := false, retryAfter := true },
            wait := .invalidHeader }])).2 with
@@ -190,6 +196,14 @@ theorem C01_checkout_inv {s s' : State} {c : Nat} (h : Inv s) (hg : getConn s = 
 /-- … and when it raises (`EmptyPoolError`, `ClosedPoolError`) nothing was taken -/
 theorem C01_checkout_error_takes_nothing {s s' : State} {e : Exc} (hg : getConn s = (s', .error e)) : s' = s :=
   getConn_error_state hg
+
+/-- … also with a `pool_timeout` that `queue.get` rejects (`ValueError` on an open `block=True` pool) -/
+theorem C01_checkout_error_takes_nothing_any_timeout {s s' : State} {b : Bool} {e : Exc}
+    (hg : getConnT s b = (s', .error e)) : s' = s :=
+  getConnT_error_state hg
+
+example : getConnT (init 1 true) true = (init 1 true, .error (exc Gen.cValueError)) ∧
+    (getConnT (init 1 false) true).2 = .ok 0 := ⟨rfl, rfl⟩
 
 /-- one-attempt summary, clean exit with `release_conn`: checkout, then ANY sequence of primitive steps
 (connecting `c`, sending, reading, closing sockets and readers, creating the response), then
@@ -330,8 +344,9 @@ theorem C01_preload_released :
 /-! ### failures outside the I/O steps of an attempt: before the checkout, between two attempts -/
 
 /-- `block=True`: after EVERY history the free slots and the connections held by responses add up to
-exactly `n` (never `n + 1`: no slot is ever duplicated — what the repaired defect `put-without-checkout`
-broke; the harness oracle `slot-surplus` is this statement on the implementation) -/
+exactly `n` (never `n + 1`: no slot is ever duplicated — what the two repaired instances of the defect
+`put-without-checkout` broke: `timeout=-1`, and `pool_timeout=-1`, which is part of every history here through
+`ReqCfg.badPoolTimeout`; the harness oracle `slot-surplus` is this statement on the implementation) -/
 theorem C01_block_slots_exact (n : Nat) (proxy : Bool) (hn : 0 < n) (ops : List Op)
     (hc : (run (init n true proxy) ops).closed = false) :
     (run (init n true proxy) ops).queue.length + (held (run (init n true proxy) ops)).length = n := by
@@ -357,6 +372,38 @@ example : preflight { badTimeout := true } {} = some (exc Gen.cValueError) ∧
     preflight { fileBody := true, bodyPos := true } { pre := .unrewindable } = some (exc Gen.cU3UnrewindableBodyError) := by
   decide
 
+/-- a failure INSIDE the checkout — whatever `_get_conn(timeout=pool_timeout)` raises: `ClosedPoolError`,
+`EmptyPoolError`, or the `ValueError` of `queue.get` for a negative `pool_timeout` on a `block=True` pool — leaves
+the pool exactly as it was, in EVERY state: `_get_conn` has taken nothing (`C01_checkout_error_takes_nothing_any_timeout`),
+none of `urlopen`'s `except` clauses retries these classes, and the `finally` clause, which sees `conn is None`, puts
+nothing back and logs nothing.  (Before the repair of `put-without-checkout:pool-timeout` the `finally` clause ran
+`_put_conn(None)` here for everything but `EmptyPoolError`.) -/
+theorem C01_checkout_failure_takes_nothing (s s' : State) (rid : Nat) (rc : ReqCfg) (retries : Retry) (a : Attempt)
+    (rest : List Attempt) (e : Exc) (hp : preflight rc a = none)
+    (hg : getConnT s rc.badPoolTimeout = (s', .error e)) :
+    request s rid rc retries (a :: rest) = (s, .raised e) := by
+  have hs : s' = s := getConnT_error_state hg
+  subst hs
+  have hcls : e.cls = Gen.cValueError ∨ e.cls = Gen.cU3ClosedPoolError ∨ e.cls = Gen.cU3EmptyPoolError := by
+    rcases getConnT_cases s' rc.badPoolTimeout with hT | ⟨hT, -⟩
+    · rw [hT] at hg
+      rcases getConn_error_cls hg with ⟨_, q⟩ | q
+      · exact Or.inr (Or.inl q)
+      · exact Or.inr (Or.inr q)
+    · rw [hT] at hg; cases hg; exact Or.inl rfl
+  rw [request, hp]
+  dsimp only
+  rw [hg]
+  dsimp only
+  rcases hcls with q | q | q <;> rw [q]
+  · rw [handleError_valueError]; rfl
+  · rw [handleError_closedPool]; rfl
+  · rw [handleError_emptyPool]
+
+example : preflight { badPoolTimeout := true } {} = none ∧
+    getConnT (init 2 true) ({ badPoolTimeout := true } : ReqCfg).badPoolTimeout = (init 2 true, .error (exc Gen.cValueError)) :=
+  ⟨rfl, rfl⟩
+
 def stream200 : Attempt :=
   { head := some { status := 200, close := false, cl := some 2, location := false, retryAfter := false }, body := [1, 2] }
 
@@ -378,6 +425,42 @@ theorem C01_bad_timeout_takes_no_slot :
     (match (step s3 (.request 3 streamCfg .off [stream200])).2 with
      | .result (.raised e) => e.cls == Gen.cU3EmptyPoolError
      | _ => false) = true := by decide
+
+/-- the histories of the repaired defect `put-without-checkout:pool-timeout` (`known_findings/C01.json`): `block=True`,
+`maxsize=2`, one streamed response outstanding, then `urlopen(..., pool_timeout=-1)` — with `release_conn=False` and
+with the default `release_conn=True`.  Before the repair `queue.get(block=True, timeout=-1)` raised `ValueError` inside
+`_get_conn()`, i.e. inside `urlopen`'s `try:`, and the `finally` clause (`clean_exit` false, `conn` `None`) put back a
+`None` that was never taken: 2 free slots + 1 outstanding response, and three connections open at once two requests
+later.  Now: the `ValueError` reaches the caller, nothing is put back (no `put` event), the pool still offers 1 free
+slot, and of two further streamed requests the second is refused (`EmptyPoolError`): never more than 2 sockets.  On an
+idle `block=True, maxsize=1` pool the caller gets the `ValueError` (before the repair: `FullPoolError` from the
+surplus `_put_conn(None)`), and a request on a closed pool (`ClosedPoolError`) no longer calls `_put_conn` either. -/
+theorem C01_bad_pool_timeout_takes_no_slot :
+    (∀ rc ∈ [{ streamCfg with badPoolTimeout := true }, ({ badPoolTimeout := true } : ReqCfg)],
+      let s1 := run (init 2 true) [.request 0 streamCfg .off [stream200]]
+      let x := step { s1 with log := [] } (.request 1 rc .off [stream200])
+      let s3 := run x.1 [.request 2 streamCfg .off [stream200]]
+      (match x.2 with
+       | .result (.raised e) => e.cls == Gen.cValueError
+       | _ => false) = true ∧
+      x.1.log = [] ∧ x.1.queue.length = 1 ∧ (held x.1).length = 1 ∧
+      s3.queue.length = 0 ∧ s3.socks.length = 2 ∧
+      (match (step s3 (.request 3 streamCfg .off [stream200])).2 with
+       | .result (.raised e) => e.cls == Gen.cU3EmptyPoolError
+       | _ => false) = true) ∧
+    (let x := step (init 1 true) (.request 0 { badPoolTimeout := true } (.count 2) [stream200, stream200])
+     (match x.2 with
+      | .result (.raised e) => e.cls == Gen.cValueError
+      | _ => false) = true ∧ x.1.log = [] ∧ x.1.queue = [none]) ∧
+    (let x := step (run (init 1 true) [.closePool]) (.request 0 {} .off [stream200])
+     (match x.2 with
+      | .result (.raised e) => e.cls == Gen.cU3ClosedPoolError
+      | _ => false) = true ∧ x.1.log = []) := by decide
+
+/-- a `block=False` pool never looks at `pool_timeout`: the same request is served -/
+example : (match (step (init 1 false) (.request 0 { badPoolTimeout := true } .off [stream200])).2 with
+    | .result (.resp _) => true
+    | _ => false) = true := by decide
 
 def retry503 (w : WaitOut) : Attempt :=
   { head := some { status := 503, close := false, cl := some 2, location := false, retryAfter := true }, body := [1, 2], wait := w }
